@@ -117,4 +117,33 @@ def sParamsText (enc : List Char → Nat) (ua upo ukw : Bool) (text : List Char)
 /-- positional notation over the code points: injective -/
 def encText (cs : List Char) : Nat := cs.foldl (fun a c => a * 1114112 + c.toNat + 1) 0
 
+/-! ### texts with EMPTY parts (`a,,b`, a leading or trailing comma)
+
+`read_sig` skips an empty part (`if not param: continue`) but `enumerate` has counted it: the indices that
+`chevron_index` and `default_index` remember are positions in the UNFILTERED split.  On texts without empty
+parts — every text the theorems speak of — this is `readSigText`; on the others the loop below keeps the
+real index.  The driver runs `readSigTextIdx`. -/
+
+/-- the loop over the unfiltered parts: `none` = an empty part (skipped, counted) -/
+def rsLoopIdx (ua upo ukw : Bool) : RS → Nat → List (Option Piece) → RS
+  | st, _, [] => st
+  | st, i, none :: ps => rsLoopIdx ua upo ukw st (i + 1) ps
+  | st, i, some p :: ps => rsLoopIdx ua upo ukw (rsStep ua upo ukw st i p) (i + 1) ps
+
+def readSigTextIdx (enc : List Char → Nat) (ua upo ukw : Bool) (text : List Char) : Option RS :=
+  let parts := splitComma text
+  if parts.all (fun w => !w.isEmpty) then readSigText enc ua upo ukw text
+  else do
+    let ps ← parts.mapM (fun w =>
+      if w.isEmpty then some (none : Option Piece)
+      else (matchParam w).bind (fun g => (toPiece enc g).map some))
+    let st := rsLoopIdx ua upo ukw {} 0 ps
+    let st := rsChevFix upo st
+    some { st with names := st.names ++ st.va.toList ++ st.vk.toList }
+
+theorem readSigTextIdx_eq (enc : List Char → Nat) (ua upo ukw : Bool) (text : List Char)
+    (h : (splitComma text).all (fun w => !w.isEmpty) = true) :
+    readSigTextIdx enc ua upo ukw text = readSigText enc ua upo ukw text := by
+  simp [readSigTextIdx, h]
+
 end SV
